@@ -243,7 +243,7 @@ let header_text (hd : M.header) : string =
 let script_of (s : string) : (nat * bool) option =
   if s = "-" then None else
   match String.split_on_char ':' s with
-  | [k; e] -> Some (nat_of_int (int_of_string k), e = "E")
+  | [k; e] -> Some (nat_of_int (int_of_string k), e <> "S")   (* E, P, Q: error answers (P/Q differ only in the payload type on the Rust side) *)
   | _ -> None
 
 let do_asm (args : string list) : string =
